@@ -19,6 +19,9 @@ Definition apply_along_axis (a : arr T) (axis : nat) (f : arr T -> res (arr U)) 
   | [] => Panic                                     (* partial[0] *)
   | first :: _ =>
     let partial_len := len first in
+    (* every lane result must have the length of the first one (repair F29: results of different lengths whose
+       total happened to fit were re-assembled misaligned) *)
+    if negb (forallb (fun r => len r =? partial_len) results) then Err EShapeLen else
     let* partial := flat_arr (flat_map (@elems U) results) in
     let new_shape := upd (shape moved) (n - 1) partial_len in
     (* `partial.reshape(..)` is a Result receiver: an error flows through the axis move unchanged *)
